@@ -58,6 +58,7 @@ def _job(args):
     else:
         name, check = spec
         tree = dict(TREES["missing"])
+        tree.update({"Cargo.toml": "[package]\nname = \"demo\"\nversion = \"0.1.0\"\n", ".gitignore": "/target\n"})
         if INVALID[name] is not None:
             tree["Breadlog.yaml"] = INVALID[name]
         tree["Breadlog.lock"] = cli.lock_yaml(8)
